@@ -924,7 +924,6 @@ func (r *envelopingReader) prepareNext() error {
 			// is no more.
 			return io.EOF
 		}
-		env.compressed = r.rw.op.client.reqCompression != nil
 		if r.rw.op.contentLen != -1 {
 			limit := int64(r.rw.op.methodConf.maxMsgBufferBytes)
 			length := r.rw.op.contentLen
@@ -951,6 +950,9 @@ func (r *envelopingReader) prepareNext() error {
 			r.mustReleaseCurrent = true
 			env.length = uint32(buf.Len()) //nolint:gosec // Length is validated above.
 		}
+		// An empty body is not a compressed message: zero bytes are not a
+		// valid stream of any compression.
+		env.compressed = r.rw.op.client.reqCompression != nil && env.length > 0
 	default: // clientEnveloper != nil
 		var envBytes envelopeBytes
 		_, err := io.ReadFull(r.r, envBytes[:])
